@@ -8,7 +8,7 @@ transfer.  F3 checks exactly that, per emission site, from the syntax tree of th
 effect table; when the scan is control-flow aware it checks the two clauses that make it so instead."""
 import re
 from ..facts import walk_expr, lastseg
-from .. import synq, isa
+from .. import synq, isa, sem
 from .f2_emit import compiler_fns, peephole_fns, COMPILER, PEEPHOLE, L
 
 COND = ("JumpIfFalse", "And", "Or")
@@ -131,66 +131,8 @@ def _pat_variants(p, out):
         _pat_variants(p["pat"], out)
 
 
-def run_aware(rec, R, F, S, f, T):
-    """apply_stack_effects follows the jumps: decide the clauses that make that right"""
-    body = f.get("body") or {}
-    # the depth variable: the one that receives `+= <instruction>.stack_effect()`
-    depth_var = None
-    for x in walk_expr(body):
-        if isinstance(x, dict) and x.get("e") == "binary" and x.get("op") == "+=" and "stack_effect" in synq.src(x.get("b")):
-            depth_var = synq.src(x["a"]).strip()
-    if depth_var is None:
-        rec.anchor_lost("F3", "the `depth += instruction.stack_effect()` accumulation in apply_stack_effects")
-        return
-    # (1) restore at labels
-    restore = False
-    for x in walk_expr(body):
-        if isinstance(x, dict) and x.get("e") == "if" and isinstance(x.get("cond"), dict) and x["cond"].get("e") == "let":
-            vs = set()
-            _pat_variants(x["cond"]["pat"], vs)
-            if "Label" in vs:
-                for y in walk_expr(x.get("then")):
-                    if isinstance(y, dict) and y.get("e") == "assign" and synq.src(y["a"]).strip().lstrip("*") == depth_var:
-                        restore = True
-    rec.inst(R, "at a Label that follows an unconditional transfer the depth is restored from the jumps that target it", ok=restore, loc=L(PEEPHOLE, f["line"]))
-    if not restore:
-        rec.finding(R, "F3/scan/no-restore", "apply_stack_effects no longer assigns the recorded depth back to `%s` at a Label: code after an unconditional transfer keeps the depth of the code that was skipped (ternary +1, break/continue minus the dropped locals), and later try blocks restore the stack to the wrong height" % depth_var, loc=L(PEEPHOLE, f["line"]), fn="apply_stack_effects")
-    # (2) every forward label-carrying instruction records the depth of its taken edge
-    recorded = set()
-    shortcircuit_plus = set()
-    for x in walk_expr(body):
-        if isinstance(x, dict) and x.get("e") == "match" and synq.src(x.get("on")).strip().lstrip("*") == "instruction":
-            for a in x["arms"]:
-                vs = set()
-                _pat_variants(a["pat"], vs)
-                if "Some" in synq.src(a["body"]) or "insert" in synq.src(a["body"]):
-                    recorded |= vs
-                    if re.search(r"%s\s*\+\s*1" % re.escape(depth_var), synq.src(a["body"])):
-                        shortcircuit_plus |= vs
-    label_ops = set()
-    sy = S.enum("laythe_vm/src/byte_code.rs", "SymbolicByteCode")
-    for v in (sy or {}).get("variants", []):
-        if any("Label" in fld["ty"] for fld in v.get("fields", [])) and v["name"] not in ("Label", "Loop"):
-            label_ops.add(v["name"])
-    if not label_ops:
-        rec.anchor_lost("F3", "label-carrying variants of SymbolicByteCode")
-    missing = sorted(label_ops - recorded)
-    rec.inst(R, "every forward label-carrying instruction records its taken-edge depth (%s)" % sorted(label_ops), ok=not missing, loc=L(PEEPHOLE, f["line"]))
-    if missing:
-        rec.finding(R, "F3/scan/unrecorded/%s" % ",".join(missing), "apply_stack_effects does not record the depth with which %s reaches its target label: code reached only through that jump after an unconditional transfer starts from a stale depth" % missing, loc=L(PEEPHOLE, f["line"]), fn="apply_stack_effects")
-    # the taken edge of a short circuit keeps the operand the fall-through pops (table: (taken, fall-through) pairs of F1.e)
-    want_plus = set(n for n in ("And", "Or") if n in label_ops)
-    okp = shortcircuit_plus == want_plus
-    rec.inst(R, "short-circuit jumps record depth + 1 (the operand stays on the taken edge)", ok=okp, loc=L(PEEPHOLE, f["line"]), note=str(sorted(shortcircuit_plus)))
-    if not okp:
-        rec.finding(R, "F3/scan/short-circuit-depth", "apply_stack_effects records the taken-edge depth of %s without (or of %s with) the operand that a short circuit keeps on the stack when it jumps" % (sorted(want_plus - shortcircuit_plus), sorted(shortcircuit_plus - want_plus)), loc=L(PEEPHOLE, f["line"]), fn="apply_stack_effects")
-    # (3) the set of instructions after which control does not fall through = the handlers without a fall-through path
-    cleared = set()
-    for x in walk_expr(body):
-        if isinstance(x, dict) and x.get("e") == "macro" and x.get("p") == "matches":
-            cleared |= _variants_in(x.get("args"))
-            if x.get("tokens"):
-                cleared |= set(re.findall(r"SymbolicByteCode\s*::\s*(\w+)", x["tokens"]))
+def _uncond_handlers(F, T):
+    """opcodes whose handler has no path that continues at the next instruction"""
     uncond = set()
     for b_ in T.bc_variants:
         ts = T.dispatch.get(b_, [])
@@ -205,8 +147,189 @@ def run_aware(rec, R, F, S, f, T):
         delegated = any(str(o[2]).startswith("SUB:") for o in outs)   # the signal comes from a helper: assume it can be Ok
         if not falls and not calls_out and not delegated:
             uncond.add(b_)
-    uncond &= set(T.sym_variants) if hasattr(T, "sym_variants") else uncond
-    ok3 = cleared == uncond
-    rec.inst(R, "instructions that end fall-through in the scan = handlers with no fall-through path", ok=ok3, loc=L(PEEPHOLE, f["line"]), note="scan: %s handlers: %s" % (sorted(cleared), sorted(uncond)))
-    if not ok3:
-        rec.finding(R, "F3/scan/fallthrough-set/%s" % ",".join(sorted(cleared ^ uncond)), "apply_stack_effects treats %s as ending fall-through but the handlers without a fall-through path are %s: after %s the scan keeps (or drops) the linear depth wrongly" % (sorted(cleared), sorted(uncond), sorted(cleared ^ uncond)), loc=L(PEEPHOLE, f["line"]), fn="apply_stack_effects")
+    return uncond & set(T.sym_variants) if hasattr(T, "sym_variants") else uncond
+
+
+def run_aware(rec, R, F, S, f, T):
+    """apply_stack_effects follows the jumps. What it does for each instruction kind is read off its MIR by
+    partial evaluation (lyverif/peval.py): for every SymbolicByteCode variant V the loop body is walked with
+    `discriminant(*instruction) == V` known, so a match per kind, a tuple of flags computed in one match and
+    tested later, `matches!`, guard clauses or an inlined helper all give the same per-kind summary:
+    which depth (relative to the running depth) is recorded for the jump's target, whether the running depth
+    is restored from the recorded one, and what the fall-through flag is afterwards."""
+    from .. import peval
+    from ..facts import op_local, op_place
+    loc = L(PEEPHOLE, f["line"])
+    fn = F.find1(r"peephole::apply_stack_effects$")
+    if fn is None:
+        rec.anchor_lost("F3", "apply_stack_effects (MIR)")
+        return
+    # anchors: the loop over the instructions, the instruction reference, the running depth, the fall-through flag
+    header = body0 = instr = None
+    for bi, t in fn.calls():
+        if (t.get("decl") or "").endswith("iterator::Iterator::next") and t["to"] >= 0:
+            sv = sem.switch_variants(F, fn, t["to"])
+            if sv and sv[0].endswith("Option"):
+                for v, dst in fn.blocks[t["to"]]["t"]["targets"]:
+                    if sv[1].get(v) == "Some":
+                        for s_ in fn.blocks[dst]["s"]:
+                            if s_["r"]["k"] == "use" and "SymbolicByteCode" in (fn.locals[s_["d"]["l"]] or "") and not s_["d"]["p"]:
+                                header, body0, instr = bi, dst, s_["d"]["l"]
+    slots = None
+    for bi, si, s_ in fn.stmts():
+        r = s_["r"]
+        if r["k"] == "bin" and r["op"].startswith("Add"):
+            rb = fn.root_of(r["b"])
+            if rb[0] == "call" and lastseg(rb[1]["f"]) == "stack_effect":
+                slots = op_local(r["a"])
+    if header is None or instr is None or slots is None:
+        rec.anchor_lost("F3", "the loop `for instruction in instructions` with `depth += instruction.stack_effect()` in apply_stack_effects")
+        return
+    loop_blocks = {b for b in fn.reachable if sem.reaches(fn, body0, b) and sem.reaches(fn, b, header)}
+    ft = None
+    for l, ty in enumerate(fn.locals):
+        if ty != "bool":
+            continue
+        ds = fn.defs.get(l, [])
+        consts = [d for d in ds if d[0] == "assign" and d[1]["k"] == "use" and d[1]["a"].get("const")]
+        if len(consts) == len(ds) and any(d[2] not in loop_blocks for d in consts) and any(d[2] in loop_blocks for d in consts):
+            ft = l
+    if ft is None:
+        rec.anchor_lost("F3", "the fall-through flag of apply_stack_effects (a bool set before the loop and inside it)")
+        return
+    # where recorded depths live: a collection created before the loop (Vec<Option<i32>>, a map, ..) and everything
+    # derived from it (element references handed out by get/get_mut/index)
+    tables = set()
+    for l, ty in enumerate(fn.locals):
+        if l <= fn.argc or not ty or not re.search(r"Vec<|Map<|\[", ty) or "SymbolicByteCode" in ty:
+            continue
+        ds = fn.defs.get(l, [])
+        if ds and all((d[2] not in loop_blocks) for d in ds) and "Option" in ty or (ds and all((d[2] not in loop_blocks) for d in ds) and "i32" in ty):
+            tables.add(l)
+    # aliases of the table's storage: reference-typed locals made from it by &/reborrow/deref()/get()/get_mut()/index
+    table_taint = set(tables)
+    grew = True
+    while grew:
+        grew = False
+        for l, ty in enumerate(fn.locals):
+            if l in table_taint or not ty or "&" not in ty:
+                continue
+            for d in fn.defs.get(l, []):
+                if d[0] == "call":
+                    a0 = d[1]["args"][0] if d[1]["args"] else None
+                    src = (op_place(a0) or {}).get("l") if a0 else None
+                else:
+                    r_ = d[1]
+                    src = None
+                    if r_["k"] in ("ref", "rawptr"):
+                        src = r_["a"]["l"]
+                    elif r_["k"] in ("use", "cast"):
+                        src = (op_place(r_["a"]) or {}).get("l")
+                if src in table_taint:
+                    table_taint.add(l)
+                    grew = True
+                    break
+    if not tables:
+        rec.anchor_lost("F3", "the table of recorded label depths in apply_stack_effects")
+        return
+    adt = F.adts.get("laythe_vm::byte_code::SymbolicByteCode")
+    if adt is None:
+        rec.anchor_lost("F3", "enum SymbolicByteCode")
+        return
+    variants = {v["name"]: int(v["discr"]) for v in adt["variants"]}
+    ikey = (instr, (("deref",),))
+
+    def summarise(vname, ft_init):
+        pe = peval.PEval(F, fn, discr_of={ikey: variants[vname]})
+        env = {slots: ("sym", "S", 0), ft: peval.C(ft_init)}
+        # the statements of the first body block bind `instruction`; start there
+        paths = pe.run(body0, env, stop={header}, watch={slots, ft})
+        recs, restores, ft_final = set(), 0, set()
+        for pth in paths:
+            if pth["end"] == "diverge":
+                continue
+            final = pth["env"].get(slots)
+            for ev in pth["events"]:
+                if ev[0] == "assign" and ev[1] == slots:
+                    v = ev[2]
+                    if v is None or v[0] != "sym":
+                        restores += 1
+                elif ev[0] == "call":
+                    t_ = ev[4]
+                    arg_locals = [(op_place(a_) or {}).get("l") for a_ in t_["args"]]
+                    if not any(al in table_taint for al in arg_locals):
+                        continue   # not a write into the table of recorded depths (update_max_slots, ..)
+                    for v in ev[2]:
+                        if v is not None and v[0] == "sym" and final is not None and final[0] == "sym" and v[1] == final[1]:
+                            recs.add(v[2] - final[2])
+                        elif v is not None and v[0] == "sym":
+                            recs.add("stale")   # a depth from before the instruction's own effect
+                elif ev[0] == "store":
+                    if ev[1]["l"] not in table_taint:
+                        continue
+                    v = ev[2]
+                    vals = [v] + (list(v[2]) if v is not None and v[0] == "agg" else [])
+                    vals += [x for y in list(vals) if y is not None and y[0] == "agg" for x in y[2]]
+                    for v in vals:
+                        if v is not None and v[0] == "sym" and final is not None and final[0] == "sym" and v[1] == final[1]:
+                            recs.add(v[2] - final[2])
+                        elif v is not None and v[0] == "sym":
+                            recs.add("stale")
+            fv = pth["env"].get(ft)
+            ft_final.add(fv[1] if fv is not None and fv[0] == "c" else "?")
+        return recs, restores, ft_final, len(paths)
+    try:
+        label_ops = set()
+        sy = S.enum("laythe_vm/src/byte_code.rs", "SymbolicByteCode")
+        for v in (sy or {}).get("variants", []):
+            if any("Label" in fld["ty"] for fld in v.get("fields", [])) and v["name"] not in ("Label", "Loop"):
+                label_ops.add(v["name"])
+        if not label_ops:
+            rec.anchor_lost("F3", "label-carrying variants of SymbolicByteCode")
+        # (1) restore at labels
+        r0, rest0, f0, _ = summarise("Label", 0)
+        r1, rest1, f1, _ = summarise("Label", 1)
+        restore = rest0 > 0
+        rec.inst(R, "at a Label that follows an unconditional transfer the depth is restored from the jumps that target it", ok=restore, loc=loc)
+        if not restore:
+            rec.finding(R, "F3/scan/no-restore", "apply_stack_effects no longer assigns the recorded depth back to the running depth at a Label that is reached only by jumps: code after an unconditional transfer keeps the depth of the code that was skipped (ternary +1, break/continue minus the dropped locals), and later try blocks restore the stack to the wrong height", loc=loc, fn="apply_stack_effects")
+        ok_keep = rest1 == 0
+        rec.inst(R, "at a Label reached by fall-through the running depth is kept", ok=ok_keep, loc=loc)
+        if not ok_keep:
+            rec.finding(R, "F3/scan/restore-on-fallthrough", "apply_stack_effects replaces the running depth by the recorded one at a Label that is also reached by fall-through: the depth of the straight-line code is the right one there (a recorded depth comes from the first jump only)", loc=loc, fn="apply_stack_effects")
+        ok_lab = f0 == {1} and f1 == {1}
+        rec.inst(R, "after a Label the code is reachable again (fall-through flag set)", ok=ok_lab, loc=loc, note="flag after Label: %s / %s" % (sorted(map(str, f0)), sorted(map(str, f1))))
+        if not ok_lab:
+            rec.finding(R, "F3/scan/label-flag", "apply_stack_effects does not mark the code after a Label as reached: the next Label would restore a depth although straight-line code leads to it", loc=loc, fn="apply_stack_effects")
+        # (2) taken-edge depth of every forward jump
+        missing, wrong = [], []
+        for v in sorted(label_ops):
+            want = 1 if v in ("And", "Or") else 0
+            recs, _, _, _ = summarise(v, 1)
+            if want not in recs:
+                (missing if not recs else wrong).append(v)
+            elif recs - {want}:
+                wrong.append(v)
+        rec.inst(R, "every forward label-carrying instruction records its taken-edge depth (%s)" % sorted(label_ops), ok=not missing, loc=loc)
+        if missing:
+            rec.finding(R, "F3/scan/unrecorded/%s" % ",".join(missing), "apply_stack_effects does not record the depth with which %s reaches its target label: code reached only through that jump after an unconditional transfer starts from a stale depth" % missing, loc=loc, fn="apply_stack_effects")
+        rec.inst(R, "short-circuit jumps record depth + 1 (the operand stays on the taken edge), the others the depth after the instruction", ok=not wrong, loc=loc)
+        if wrong:
+            rec.finding(R, "F3/scan/short-circuit-depth", "apply_stack_effects records a wrong taken-edge depth for %s: And/Or keep their operand when they jump (depth + 1), every other jump leaves exactly the depth after the instruction" % wrong, loc=loc, fn="apply_stack_effects")
+        # (3) fall-through set
+        uncond = _uncond_handlers(F, T)
+        cleared = set()
+        for v in sorted(variants):
+            if v == "Label":
+                continue
+            _, _, fin, _ = summarise(v, 1)
+            if fin == {0}:
+                cleared.add(v)
+            elif 0 in fin:
+                cleared.add(v + "?")
+        ok3 = cleared == uncond
+        rec.inst(R, "instructions that end fall-through in the scan = handlers with no fall-through path", ok=ok3, loc=loc, note="scan: %s handlers: %s" % (sorted(cleared), sorted(uncond)))
+        if not ok3:
+            rec.finding(R, "F3/scan/fallthrough-set/%s" % ",".join(sorted(cleared ^ uncond)), "apply_stack_effects treats %s as ending fall-through but the handlers without a fall-through path are %s: after %s the scan keeps (or drops) the linear depth wrongly" % (sorted(cleared), sorted(uncond), sorted(cleared ^ uncond)), loc=loc, fn="apply_stack_effects")
+    except peval.Limit as e:
+        rec.unan(R, "apply_stack_effects", str(e))
